@@ -267,7 +267,12 @@ let p_op () = match next () with
   | "can" -> OCancel (nnat ())
   | "pan" -> OPanic (nz ())
   | t -> failwith ("op " ^ t)
-let p_script () = plist p_op
+(* "nst <threads> <k>": a nested simulation built, run and dropped inside the handler (harness only);
+   it has no effect on the enclosing simulation, so the model skips it *)
+let p_op_opt () = match !toks with
+  | "nst" :: _ -> ignore (next ()); ignore (nint ()); ignore (nint ()); None
+  | _ -> Some (p_op ())
+let p_script () = List.filter_map (fun x -> x) (plist p_op_opt)
 let p_model () =
   let cap = nnat () in
   let place = (match nint () with 0 -> Added | 1 -> Orphan | _ -> Dropped) in
